@@ -690,9 +690,26 @@ def shared_C10(v, sc):
                     % (c["n"], c["kind"], c["T"], c["Div"], facts["Empty"][0], facts["Empty"][1], facts["End"][0], facts["End"][1], tr),
                     dict(kind="join-shared", trace=t))
     judged = sum(1 for t in by_tr.values() if any(r["ev"] == "End" for r in t))
+    # binding / vacuity guard: the same log with ONE delivered count lowered by one must be rejected, for exactly that trace
+    if not bad:
+        victim = next((r for r in recs if r["ev"] == "End" and r["x"] > 0), None)
+        if victim is None:
+            raise Inconclusive("shared-input recorder produced no judged trace")
+        sub2 = os.path.join(sub, "corrupt")
+        os.makedirs(sub2, exist_ok=True)
+        stage_specs(sub2)
+        with open(os.path.join(sub2, "shared.ndjson"), "w") as f:
+            for r in recs:
+                f.write(json.dumps(dict(r, x=r["x"] - 1) if r is victim else r) + "\n")
+        res2 = tlc(sub2, "Mon_JoinShared", cfg="Mon_JoinShared.cfg", workers=1, timeout=600)
+        sets2 = re.findall(r"/\\ viol = \{([^}]*)\}", res2.out)
+        got = [int(x) for x in sets2[-1].split(",") if x.strip()] if sets2 else []
+        if not res2.inv_violated or got != [victim["tr"]]:
+            raise Inconclusive("Mon_JoinShared does not reject a log with one lost element (vacuity guard)\n" + res2.out[-1500:])
     v.cov["shared_input"] = dict(traces=len(by_tr), judged=judged, rejected_by_constructor=sum(1 for t in by_tr.values() if any(r["ev"] == "Rejected" for r in t)),
                                  stuck=sum(1 for t in by_tr.values() if any(r["ev"] == "Stuck" for r in t)), elements=sum(r["x"] for r in recs if r["ev"] == "Empty"),
-                                 monitor_states=res.distinct, violations=len(bad), wall_s=round(wall, 1))
+                                 monitor_states=res.distinct, violations=len(bad), wall_s=round(wall, 1),
+                                 corruption_guard="one delivered count lowered by one: rejected for exactly that trace" if not bad else "skipped (violations found)")
 
 
 def check_C10(tier):
